@@ -272,7 +272,29 @@ func (e *enc) instr(b *ssa.BasicBlock, st *State, ins ssa.Instruction) {
 		e.selectInstr(st, x)
 	case *ssa.Send:
 		e.syncPoint(st, "send")
-		_ = e.val(x.X)
+		sent := e.val(x.X)
+		if e.c != nil {
+			name := e.valText(x.Chan)
+			site := fmt.Sprintf("send:%s#%d", name, e.sendOrdinal(x, name))
+			for _, cc := range e.c.calls[site] {
+				env := e.envFor(st, e.entry)
+				env.bound["$val"] = SVal{t: sent, typ: x.X.Type(), sort: sortOf(x.X.Type())}
+				switch cc.kind {
+				case "assert":
+					key := cc.label
+					if key == "" {
+						key = "assert"
+					}
+					g := e.evalBool(cc.expr, env, "send assertion "+site)
+					e.oblige("callsite", fmt.Sprintf("%s:%s", site, key), g, x.Pos(), cc.text)
+				case "bind":
+					v := e.evalSpec(cc.expr, env)
+					gc := e.ghostCellFor(cc.name, v)
+					st.cells[gc.cell] = v.t
+					st.cells[gc.cell+"_set"] = "true"
+				}
+			}
+		}
 	case *ssa.Panic:
 		txt := e.srcText(x.Pos(), func(n ast.Node) bool { _, ok := n.(*ast.CallExpr); return ok })
 		if txt == "" {
@@ -356,6 +378,7 @@ func (e *enc) unop(st *State, x *ssa.UnOp) {
 		ct := x.X.Type().Underlying().(*types.Chan)
 		v := e.fresh("recv", sortOf(ct.Elem()))
 		e.assumeAll(e.facts(v, ct.Elem(), true))
+		e.recvAssume(st, x.X, v, ct.Elem())
 		if x.CommaOk {
 			ok := e.fresh("recvok", "Bool")
 			e.vals[x] = []string{v, ok}
@@ -645,7 +668,7 @@ func (e *enc) makeSlice(st *State, x *ssa.MakeSlice) {
 		nw := e.fresh("Mem_"+sortKey(es)+"_mk", "(Array Ref "+es+")")
 		e.assert(fmt.Sprintf("(forall ((r Ref)) (! (= (select %s r) (ite (and ((_ is elem) r) (= (ebase r) %s)) %s (select %s r))) :pattern ((select %s r))))",
 			nw, arr, e.zeroOf(et), old, nw))
-		st.cells[heapCell(es)] = nw
+		e.setHeap(st, es, old, nw, heapUpd{elems: true})
 	}
 	e.setVal(x, fmt.Sprintf("(mkslice %s 0 %s %s)", arr, ln, cp))
 }
@@ -715,6 +738,7 @@ func (e *enc) indexAddr(st *State, x *ssa.IndexAddr) {
 	case *types.Slice:
 		e.oblige("bounds", txt, fmt.Sprintf("(and (<= 0 %s) (< %s (slen %s)))", iv, iv, xv), x.Pos(), txt)
 		e.setVal(x, e.mkElem(fmt.Sprintf("(sarr %s)", xv), fmt.Sprintf("(+ (soff %s) %s)", xv, iv)))
+		e.elemAddr[e.val(x)] = true
 	case *types.Pointer:
 		e.nilCheck(x.X, xv, x.Pos())
 		n := u.Elem().Underlying().(*types.Array).Len()
@@ -801,10 +825,34 @@ func (e *enc) selectInstr(st *State, x *ssa.Select) {
 			et := s.Chan.Type().Underlying().(*types.Chan).Elem()
 			v := e.fresh("selrecv", sortOf(et))
 			e.assumeAll(e.facts(v, et, true))
+			e.recvAssume(st, s.Chan, v, et)
 			res = append(res, v)
 		}
 	}
 	e.vals[x] = res
+}
+
+// recvAssume applies "recv <chan> assume <expr over $val>" clauses: a rely on what senders put on
+// the channel (to be matched by "send ... assert" obligations at every sender).
+func (e *enc) recvAssume(st *State, ch ssa.Value, v string, et types.Type) {
+	if e.c == nil {
+		return
+	}
+	name := "recv:" + e.valText(ch)
+	for site, clauses := range e.c.calls {
+		if site != name && !strings.HasPrefix(site, name+"#") {
+			continue
+		}
+		for _, cc := range clauses {
+			if cc.kind != "assume" {
+				continue
+			}
+			env := e.envFor(st, e.entry)
+			env.bound["$val"] = SVal{t: v, typ: et, sort: sortOf(et)}
+			e.assume(e.evalBool(cc.expr, env, "receive assumption "+site))
+			e.note("rely on senders of channel " + e.valText(ch) + ": " + cc.text)
+		}
+	}
 }
 
 // syncPoint: other goroutines started by this function may have run.
